@@ -186,8 +186,27 @@ def make_bias(rng, cv, bname, allow_centers=True):
             lines.append("  outputCenters on")
         text = "harmonic {\n%s\n}\n" % "\n".join(lines)
     elif kind == "walls":
-        lines += ["  lowerWalls %s" % fnum(round(rng.uniform(0.5, 2.0), 3)), "  upperWalls %s" % fnum(round(rng.uniform(2.5, 4.0), 3)),
-                  "  forceConstant %s" % fnum(round(rng.uniform(0.5, 4.0), 3))]
+        # walls placed around a typical value of the variable: it spends time below the lower wall, between the walls or above
+        v0_ = corpus.random_value(rng, cv)
+        v0_ = float(v0_[0] if isinstance(v0_, (list, tuple)) else v0_)
+        side_ = rng.choice(["below", "below", "between", "above"])
+        if side_ == "below":
+            lw_ = round(v0_ + rng.uniform(0.1, 0.6), 3)
+            uw_ = round(lw_ + rng.uniform(1.0, 2.0), 3)
+        elif side_ == "above":
+            uw_ = round(v0_ - rng.uniform(0.1, 0.6), 3)
+            lw_ = round(uw_ - rng.uniform(1.0, 2.0), 3)
+        else:
+            lw_, uw_ = round(v0_ - rng.uniform(0.2, 0.8), 3), round(v0_ + rng.uniform(0.2, 0.8), 3)
+        kl_ = ku_ = round(rng.uniform(0.5, 4.0), 3)
+        lines += ["  lowerWalls %s" % fnum(lw_), "  upperWalls %s" % fnum(uw_)]
+        if rng.random() < 0.7:
+            # separate constants for the two walls
+            ku_ = round(kl_ * rng.choice([0.25, 0.5, 2.0, 4.0]), 3)
+            lines += ["  lowerWallConstant %s" % fnum(kl_), "  upperWallConstant %s" % fnum(ku_)]
+        else:
+            lines += ["  forceConstant %s" % fnum(kl_)]
+        b["walls"] = dict(lw=lw_, uw=uw_, kl=kl_, ku=ku_)
         text = "harmonicWalls {\n%s\n}\n" % "\n".join(lines)
     elif kind == "linear":
         lines += ["  centers %s" % fnum(round(rng.uniform(0.5, 4.0), 3)), "  forceConstant %s" % fnum(round(rng.uniform(-2.0, 2.0), 3))]
@@ -499,6 +518,27 @@ def check_traj_case(c, case, r, ev, sp, tag, wd):
                     viol("traj_value:" + what, "%s step %d column %s: written %s, engine-side record of that step %s"
                          % (os.path.basename(path), e["it"], name, p, [fl(x) for x in want]))
                     return nver
+                if what == "bias_energy" and bnames.get(name[2:], {}).get("walls") and "timeStepFactor" not in bnames[name[2:]]["text"]:
+                    # closed form of a harmonicWalls energy from the value the variable took at that step (the walls act on the actual value)
+                    b_ = bnames[name[2:]]
+                    cv_ = cvnames.get(b_["cv"])
+                    ce_ = e.get("cv", {}).get(b_["cv"])
+                    if cv_ is not None and ce_ is not None and "timeStepFactor" not in cv_["text"]:
+                        m_ = re.search(r"\n  width (\S+)", cv_["text"])
+                        w_ = float(m_.group(1)) if m_ else 1.0
+                        x_ = fl((ce_["xa"] if "ext" in ce_ else ce_["x"])[0])
+                        wl_ = b_["walls"]
+                        ex_ = 0.5 * wl_["kl"] * ((x_ - wl_["lw"]) / w_) ** 2 if x_ < wl_["lw"] else (
+                            0.5 * wl_["ku"] * ((x_ - wl_["uw"]) / w_) ** 2 if x_ > wl_["uw"] else 0.0)
+                        if abs(p[0] - ex_) > 1e-9 * max(1.0, abs(ex_)):
+                            viol("traj_bias_energy_definition:walls:" + ("two_constants" if wl_["kl"] != wl_["ku"] else "one_constant") +
+                                 (":below_lower" if x_ < wl_["lw"] else ":above_upper" if x_ > wl_["uw"] else ":between"),
+                                 "%s step %d column %s: written %.14g; the variable is at %.14g, walls %s / %s with constants %s / %s, width %s: %.14g"
+                                 % (os.path.basename(path), e["it"], name, p[0], x_, wl_["lw"], wl_["uw"], wl_["kl"], wl_["ku"], w_, ex_))
+                            return nver
+                        c.bump("traj_walls_energy_definition_checks")
+                        c.note_set("traj_walls_energy_situations", ("two_constants" if wl_["kl"] != wl_["ku"] else "one_constant") +
+                                   (":below_lower" if x_ < wl_["lw"] else ":above_upper" if x_ > wl_["uw"] else ":between"))
                 if what == "work" and name[2:] in tbw and e["it"] in tbw[name[2:]]:
                     wt = tbw[name[2:]][e["it"]]
                     if abs(p[0] - wt) > 1e-9 * max(1.0, abs(wt), abs(p[0])):
